@@ -190,7 +190,8 @@ Definition prefix_handle (now : Z) (st : pstate) (client : option bytes) (pds : 
 
 (* setupPrefix: the pool as net.ParseCIDR gives it, the allocation length *)
 Definition prefix_setup (pip pmask : bytes) (size : Z) : res pstate :=
-  if ((size <? 0) || (128 <? size))%Z then Err EOther
+  if negb (lenb pip 16) then Err EOther          (* the pool must be an IPv6 prefix (fix F20) *)
+  else if ((size <? 0) || (128 <? size))%Z then Err EOther
   else match new6 pip pmask size with
        | Ok a => Ok {| ps_alloc := a; ps_recs := [] |}
        | Err e => Err e
